@@ -5,7 +5,6 @@ import (
 	"strconv"
 	"strings"
 
-	m2 "github.com/goark/go-cvss/v2/metric"
 	m3 "github.com/goark/go-cvss/v3/metric"
 	v3ver "github.com/goark/go-cvss/v3/version"
 )
@@ -26,156 +25,13 @@ func b2i(b bool) string {
 	return "0"
 }
 
-var sc3 = []m3.Scope{0, 1, 2}
-
-var tabs3 = map[string]tab{
-	"AV": {func(s string) int { return int(m3.GetAttackVector(s)) }, func(v int) string { return m3.AttackVector(v).String() },
-		func(v int) bool { return !m3.AttackVector(v).IsUnknown() }, func(v int) []float64 { return []float64{m3.AttackVector(v).Value()} }},
-	"AC": {func(s string) int { return int(m3.GetAttackComplexity(s)) }, func(v int) string { return m3.AttackComplexity(v).String() },
-		func(v int) bool { return !m3.AttackComplexity(v).IsUnknown() }, func(v int) []float64 { return []float64{m3.AttackComplexity(v).Value()} }},
-	"PR": {func(s string) int { return int(m3.GetPrivilegesRequired(s)) }, func(v int) string { return m3.PrivilegesRequired(v).String() },
-		func(v int) bool { return !m3.PrivilegesRequired(v).IsUnknown() }, func(v int) []float64 {
-			r := []float64{}
-			for _, s := range sc3 {
-				r = append(r, m3.PrivilegesRequired(v).Value(s))
-			}
-			return r
-		}},
-	"UI": {func(s string) int { return int(m3.GetUserInteraction(s)) }, func(v int) string { return m3.UserInteraction(v).String() },
-		func(v int) bool { return !m3.UserInteraction(v).IsUnknown() }, func(v int) []float64 { return []float64{m3.UserInteraction(v).Value()} }},
-	"S": {func(s string) int { return int(m3.GetScope(s)) }, func(v int) string { return m3.Scope(v).String() },
-		func(v int) bool { return !m3.Scope(v).IsUnknown() }, func(v int) []float64 {
-			if m3.Scope(v).IsChanged() {
-				return []float64{1}
-			}
-			return []float64{0}
-		}},
-	"C": {func(s string) int { return int(m3.GetConfidentialityImpact(s)) }, func(v int) string { return m3.ConfidentialityImpact(v).String() },
-		func(v int) bool { return !m3.ConfidentialityImpact(v).IsUnknown() }, func(v int) []float64 { return []float64{m3.ConfidentialityImpact(v).Value()} }},
-	"I": {func(s string) int { return int(m3.GetIntegrityImpact(s)) }, func(v int) string { return m3.IntegrityImpact(v).String() },
-		func(v int) bool { return !m3.IntegrityImpact(v).IsUnknown() }, func(v int) []float64 { return []float64{m3.IntegrityImpact(v).Value()} }},
-	"A": {func(s string) int { return int(m3.GetAvailabilityImpact(s)) }, func(v int) string { return m3.AvailabilityImpact(v).String() },
-		func(v int) bool { return !m3.AvailabilityImpact(v).IsUnknown() }, func(v int) []float64 { return []float64{m3.AvailabilityImpact(v).Value()} }},
-	"E": {func(s string) int { return int(m3.GetExploitability(s)) }, func(v int) string { return m3.Exploitability(v).String() },
-		func(v int) bool { return m3.Exploitability(v).IsValid() }, func(v int) []float64 { return []float64{m3.Exploitability(v).Value()} }},
-	"RL": {func(s string) int { return int(m3.GetRemediationLevel(s)) }, func(v int) string { return m3.RemediationLevel(v).String() },
-		func(v int) bool { return m3.RemediationLevel(v).IsValid() }, func(v int) []float64 { return []float64{m3.RemediationLevel(v).Value()} }},
-	"RC": {func(s string) int { return int(m3.GetReportConfidence(s)) }, func(v int) string { return m3.ReportConfidence(v).String() },
-		func(v int) bool { return m3.ReportConfidence(v).IsValid() }, func(v int) []float64 { return []float64{m3.ReportConfidence(v).Value()} }},
-	"CR": {func(s string) int { return int(m3.GetConfidentialityRequirement(s)) }, func(v int) string { return m3.ConfidentialityRequirement(v).String() },
-		func(v int) bool { return m3.ConfidentialityRequirement(v).IsValid() }, func(v int) []float64 { return []float64{m3.ConfidentialityRequirement(v).Value()} }},
-	"IR": {func(s string) int { return int(m3.GetIntegrityRequirement(s)) }, func(v int) string { return m3.IntegrityRequirement(v).String() },
-		func(v int) bool { return m3.IntegrityRequirement(v).IsValid() }, func(v int) []float64 { return []float64{m3.IntegrityRequirement(v).Value()} }},
-	"AR": {func(s string) int { return int(m3.GetAvailabilityRequirement(s)) }, func(v int) string { return m3.AvailabilityRequirement(v).String() },
-		func(v int) bool { return m3.AvailabilityRequirement(v).IsValid() }, func(v int) []float64 { return []float64{m3.AvailabilityRequirement(v).Value()} }},
-	"MAV": {func(s string) int { return int(m3.GetModifiedAttackVector(s)) }, func(v int) string { return m3.ModifiedAttackVector(v).String() },
-		func(v int) bool { return m3.ModifiedAttackVector(v).IsValid() }, func(v int) []float64 {
-			r := []float64{}
-			for b := 0; b <= 5; b++ {
-				r = append(r, m3.ModifiedAttackVector(v).Value(m3.AttackVector(b)))
-			}
-			return r
-		}},
-	"MAC": {func(s string) int { return int(m3.GetModifiedAttackComplexity(s)) }, func(v int) string { return m3.ModifiedAttackComplexity(v).String() },
-		func(v int) bool { return m3.ModifiedAttackComplexity(v).IsValid() }, func(v int) []float64 {
-			r := []float64{}
-			for b := 0; b <= 5; b++ {
-				r = append(r, m3.ModifiedAttackComplexity(v).Value(m3.AttackComplexity(b)))
-			}
-			return r
-		}},
-	"MPR": {func(s string) int { return int(m3.GetModifiedPrivilegesRequired(s)) }, func(v int) string { return m3.ModifiedPrivilegesRequired(v).String() },
-		func(v int) bool { return m3.ModifiedPrivilegesRequired(v).IsValid() }, func(v int) []float64 {
-			r := []float64{}
-			for ms := 0; ms <= 4; ms++ {
-				for s := 0; s <= 3; s++ {
-					for pr := 0; pr <= 4; pr++ {
-						r = append(r, m3.ModifiedPrivilegesRequired(v).Value(m3.ModifiedScope(ms), m3.Scope(s), m3.PrivilegesRequired(pr)))
-					}
-				}
-			}
-			return r
-		}},
-	"MUI": {func(s string) int { return int(m3.GetModifiedUserInteraction(s)) }, func(v int) string { return m3.ModifiedUserInteraction(v).String() },
-		func(v int) bool { return m3.ModifiedUserInteraction(v).IsValid() }, func(v int) []float64 {
-			r := []float64{}
-			for b := 0; b <= 5; b++ {
-				r = append(r, m3.ModifiedUserInteraction(v).Value(m3.UserInteraction(b)))
-			}
-			return r
-		}},
-	"MS": {func(s string) int { return int(m3.GetModifiedScope(s)) }, func(v int) string { return m3.ModifiedScope(v).String() },
-		func(v int) bool { return m3.ModifiedScope(v).IsValid() }, func(v int) []float64 {
-			r := []float64{}
-			for b := 0; b <= 3; b++ {
-				if m3.ModifiedScope(v).IsChanged(m3.Scope(b)) {
-					r = append(r, 1)
-				} else {
-					r = append(r, 0)
-				}
-			}
-			return r
-		}},
-	"MC": {func(s string) int { return int(m3.GetModifiedConfidentialityImpact(s)) }, func(v int) string { return m3.ModifiedConfidentialityImpact(v).String() },
-		func(v int) bool { return m3.ModifiedConfidentialityImpact(v).IsValid() }, func(v int) []float64 {
-			r := []float64{}
-			for b := 0; b <= 5; b++ {
-				r = append(r, m3.ModifiedConfidentialityImpact(v).Value(m3.ConfidentialityImpact(b)))
-			}
-			return r
-		}},
-	"MI": {func(s string) int { return int(m3.GetModifiedIntegrityImpact(s)) }, func(v int) string { return m3.ModifiedIntegrityImpact(v).String() },
-		func(v int) bool { return m3.ModifiedIntegrityImpact(v).IsValid() }, func(v int) []float64 {
-			r := []float64{}
-			for b := 0; b <= 5; b++ {
-				r = append(r, m3.ModifiedIntegrityImpact(v).Value(m3.IntegrityImpact(b)))
-			}
-			return r
-		}},
-	"MA": {func(s string) int { return int(m3.GetModifiedAvailabilityImpact(s)) }, func(v int) string { return m3.ModifiedAvailabilityImpact(v).String() },
-		func(v int) bool { return m3.ModifiedAvailabilityImpact(v).IsValid() }, func(v int) []float64 {
-			r := []float64{}
-			for b := 0; b <= 5; b++ {
-				r = append(r, m3.ModifiedAvailabilityImpact(v).Value(m3.AvailabilityImpact(b)))
-			}
-			return r
-		}},
-}
-
-var tabs2 = map[string]tab{
-	"AV": {func(s string) int { return int(m2.GetAccessVector(s)) }, func(v int) string { return m2.AccessVector(v).String() },
-		func(v int) bool { return m2.AccessVector(v).IsUnknown() }, func(v int) []float64 { return []float64{m2.AccessVector(v).Value()} }},
-	"AC": {func(s string) int { return int(m2.GetAccessComplexity(s)) }, func(v int) string { return m2.AccessComplexity(v).String() },
-		func(v int) bool { return m2.AccessComplexity(v).IsUnknown() }, func(v int) []float64 { return []float64{m2.AccessComplexity(v).Value()} }},
-	"Au": {func(s string) int { return int(m2.GetAuthentication(s)) }, func(v int) string { return m2.Authentication(v).String() },
-		func(v int) bool { return m2.Authentication(v).IsUnknown() }, func(v int) []float64 { return []float64{m2.Authentication(v).Value()} }},
-	"C": {func(s string) int { return int(m2.GetConfidentialityImpact(s)) }, func(v int) string { return m2.ConfidentialityImpact(v).String() },
-		func(v int) bool { return m2.ConfidentialityImpact(v).IsUnknown() }, func(v int) []float64 { return []float64{m2.ConfidentialityImpact(v).Value()} }},
-	"I": {func(s string) int { return int(m2.GetIntegrityImpact(s)) }, func(v int) string { return m2.IntegrityImpact(v).String() },
-		func(v int) bool { return m2.IntegrityImpact(v).IsUnknown() }, func(v int) []float64 { return []float64{m2.IntegrityImpact(v).Value()} }},
-	"A": {func(s string) int { return int(m2.GetAvailabilityImpact(s)) }, func(v int) string { return m2.AvailabilityImpact(v).String() },
-		func(v int) bool { return m2.AvailabilityImpact(v).IsUnknown() }, func(v int) []float64 { return []float64{m2.AvailabilityImpact(v).Value()} }},
-	"E": {func(s string) int { return int(m2.GetExploitability(s)) }, func(v int) string { return m2.Exploitability(v).String() },
-		func(v int) bool { return m2.Exploitability(v).IsValid() }, func(v int) []float64 { return []float64{m2.Exploitability(v).Value()} }},
-	"RL": {func(s string) int { return int(m2.GetRemediationLevel(s)) }, func(v int) string { return m2.RemediationLevel(v).String() },
-		func(v int) bool { return m2.RemediationLevel(v).IsValid() }, func(v int) []float64 { return []float64{m2.RemediationLevel(v).Value()} }},
-	"RC": {func(s string) int { return int(m2.GetReportConfidence(s)) }, func(v int) string { return m2.ReportConfidence(v).String() },
-		func(v int) bool { return m2.ReportConfidence(v).IsValid() }, func(v int) []float64 { return []float64{m2.ReportConfidence(v).Value()} }},
-	"CDP": {func(s string) int { return int(m2.GetCollateralDamagePotential(s)) }, func(v int) string { return m2.CollateralDamagePotential(v).String() },
-		func(v int) bool { return m2.CollateralDamagePotential(v).IsValid() }, func(v int) []float64 { return []float64{m2.CollateralDamagePotential(v).Value()} }},
-	"TD": {func(s string) int { return int(m2.GetTargetDistribution(s)) }, func(v int) string { return m2.TargetDistribution(v).String() },
-		func(v int) bool { return m2.TargetDistribution(v).IsValid() }, func(v int) []float64 { return []float64{m2.TargetDistribution(v).Value()} }},
-	"CR": {func(s string) int { return int(m2.GetConfidentialityRequirement(s)) }, func(v int) string { return m2.ConfidentialityRequirement(v).String() },
-		func(v int) bool { return m2.ConfidentialityRequirement(v).IsValid() }, func(v int) []float64 { return []float64{m2.ConfidentialityRequirement(v).Value()} }},
-	"IR": {func(s string) int { return int(m2.GetIntegrityRequirement(s)) }, func(v int) string { return m2.IntegrityRequirement(v).String() },
-		func(v int) bool { return m2.IntegrityRequirement(v).IsValid() }, func(v int) []float64 { return []float64{m2.IntegrityRequirement(v).Value()} }},
-	"AR": {func(s string) int { return int(m2.GetAvailabilityRequirement(s)) }, func(v int) string { return m2.AvailabilityRequirement(v).String() },
-		func(v int) bool { return m2.AvailabilityRequirement(v).IsValid() }, func(v int) []float64 { return []float64{m2.AvailabilityRequirement(v).Value()} }},
-}
 
 func tabOp(tabs map[string]tab, f []string) (string, bool) {
 	if len(f) < 4 {
 		return "", false
+	}
+	if !tabsOn {
+		return "api=changed", true
 	}
 	t, ok := tabs[f[1]]
 	if !ok {
